@@ -81,7 +81,7 @@ def compile_sets(sets, log=lambda *a: None):
     return [(e is None, e) for e in errs]
 
 
-def run_sets(sets, spellings, log=lambda *a: None):
+def run_sets(sets, spellings, log=lambda *a: None, salt=''):
     """for declaration sets that compile: build ONE binary with a module per set and send every reference spelling of every declaration
     through Interface::run; returns failures [{set, decl, spelling, hits, errors}] where not exactly the declared handler was invoked once.
     spellings[i][k] = list of header texts (with '?' for queries) of declaration k of set i"""
@@ -89,7 +89,7 @@ def run_sets(sets, spellings, log=lambda *a: None):
         return []
     d = os.path.join(build.WORK, 'crun')
     os.makedirs(os.path.join(d, 'src'), exist_ok=True)
-    lines = ['#![allow(dead_code, unused)]', 'use std::future::Future;', 'use std::task::{Context, Poll, Waker};', 'use microscpi::Interface;',
+    lines = ['#![allow(dead_code, unused)]', f'// {salt}', 'use std::future::Future;', 'use std::task::{Context, Poll, Waker};', 'use microscpi::Interface;',
              'fn block_on<F: Future>(fut: F) -> F::Output { let mut fut = std::pin::pin!(fut); let mut cx = Context::from_waker(Waker::noop()); let mut n = 0u32;',
              '    loop { if let Poll::Ready(v) = fut.as_mut().poll(&mut cx) { return v; } n += 1; if n > 100000 { panic!("HANG"); } } }']
     for i, st in enumerate(sets):
